@@ -142,6 +142,10 @@ TRUSTED = ['numpy arange/digitize/unique/vstack/hstack inside nlist.pyx (corresp
            'exact oracle: python int arithmetic on float.as_integer_ratio inputs',
            'regular-expression template of the two growth blocks of nlist.pyx in the translator (any other shape of '
            'these blocks is reported as a broken tie, never silently accepted)',
+           'round 5: nlist.pyx made readable for python ast (typed parameters -> names, `cdef T name = e` -> `name = e`, other '
+           'cdef lines -> pass) and the walk over that syntax tree that writes Generated/NlistSource.lean (statements found by '
+           'what they assign / test and by the loops around them; anything else is a TranslationError); numpy arange (length = '
+           'ceil((stop - start) / step)) and digitize (number of edges <= x) as specified in the model',
            'translator of the declarations / scalar expressions / tests of nlist.pyx and dmag.pyx (regular expressions on '
            'comment-stripped lines) and of NeighborList.dump / build / __getitem__ (python ast); os.fork isolation of the '
            'phases that call the compiled code']
@@ -3033,6 +3037,10 @@ def _run_forked(cases):
                 _rows(_build(case, system, case.get('init') or 20, case.get('delta') or 10, k % 2))
                 if k % 4 == 0:
                     _rows(_build(case, system, 1, 1, 1 - k % 2))
+                if case.get('call'):
+                    ci, cd = case['call']
+                    _rows(_build(case, system, None if ci in '-~' else int(ci), None if cd in '-~' else int(cd), k % 2,
+                                 3 if '~' in (ci, cd) else 0))
             except Exception:  # noqa  (exceptions are handled by the in-process run)
                 pass
     res = _forked(body)
@@ -3169,7 +3177,10 @@ def _isolated(ctx, fn, what):
             c = last['case']
             ctx.violate('crash', f'the interpreter is terminated (signal {sig}) while / after building the neighbor list '
                         f'[{what}]: natoms={len(c["pos"])}, pbc={c["pbc"]}, cutoff={c["cutoff"]!r}, initialsize='
-                        f'{c.get("init")}, deltasize={c.get("delta")}, vects={c["vects"]}', last)
+                        f'{c.get("init")}, deltasize={c.get("delta")}'
+                        + (f' [called with initialsize / deltasize = {c["call"][0]} / {c["call"][1]}: "-" = left out in '
+                           f'NeighborList(system=, cutoff=) / System.neighborlist(cutoff=), "~" = left out in nlist(system, cutoff)]'
+                           if c.get('call') else '') + f', vects={c["vects"]}', last)
         else:
             ctx.violate('crash', f'the interpreter is terminated (signal {sig}) during {what}', last or {'op': 'crash'})
     if ctx.driver is not None:
@@ -3295,6 +3306,8 @@ def _correspond_case(ctx, case, name, tmpdir, roundtrip):
     if k_form in (0, 5, 10):
         ctx.extra['calls_with_sizes_left_out'] = ctx.extra.get('calls_with_sizes_left_out', 0) + 1
     out = ctx.driver.ask(_line(case, t_init, t_delta))
+    if k_form in (0, 5, 10):
+        _trace(_payload(dict(case, call=[str(t_init), str(t_delta)]), stage='crash'))
     try:
         nl = _build(case, system, a_init, a_delta, via, form)
         rows = _rows(nl)
@@ -4378,6 +4391,17 @@ def _search_case(ctx, case, kind, name, full, tmpdir=None):
             ctx.violate('storage', f'result depends on the storage sizes: initialsize/deltasize {init}/{delta} gives '
                         f'{rows}, {alt[0]}/{alt[1]} gives {rows2}', _payload(case, init2=alt[0], delta2=alt[1]))
             return
+        # round 5: the direct call with both sizes left out (`nlist(system, cutoff)`: the defaults of nlist.pyx itself,
+        # which no call through NeighborList ever uses)
+        try:
+            rows2 = _rows(_build(case, system, None, None, 0, 3))
+        except Exception as e:  # noqa
+            ctx.violate('raises', f'nlist(system, cutoff) raised {type(e).__name__}: {e}', _payload(case, direct=1))
+            return
+        if rows2 != rows:
+            ctx.violate('storage', f'result depends on the storage sizes: initialsize/deltasize {init}/{delta} gives '
+                        f'{rows}, nlist(system, cutoff) with both left out gives {rows2}', _payload(case, direct=1))
+            return
         # the same values handed over as other python / numpy types, and nlist() called positionally
         form = 1 + (n + init + delta) % 3
         try:
@@ -4730,6 +4754,12 @@ def _replay(ctx, payload):
         nl2 = _build(case, system, r['init2'], r['delta2'], 1)
         if _rows(nl2) != rows:
             ctx.violate('storage', f'result depends on the storage sizes: {rows} vs {_rows(nl2)}', r)
+    if r.get('direct'):
+        rows2 = _rows(_build(case, system, None, None, 0, 3))
+        print('nlist(system, cutoff):', rows2 if len(rows2) <= 400 else '...')
+        if rows2 != rows:
+            ctx.violate('storage', 'result depends on the storage sizes: nlist(system, cutoff) with both sizes left out '
+                        'gives other lists than the call with sizes', r)
     if r.get('stage') == 'roundtrip':
         with tempfile.TemporaryDirectory(prefix='c03_') as tmpdir:
             _roundtrip_real(ctx, case, nl, rows, tmpdir, 'replay',
@@ -4773,13 +4803,18 @@ MANIFEST = {
             'blocks, declared C types, scalar expressions and tests, dump formats, build / __getitem__, and every other '
             'statement of nlist / unique_rows2 / dmag2_c / NeighborList.load / __init__ pinned) + differential correspondence with the real '
             'NeighborList / System.neighborlist / nlist on identical rational inputs (rows, coord, storage width, dumped '
-            'text, re-loaded rows, whole operation sequences on one object).',
+            'text, re-loaded rows, whole operation sequences on one object). Round 5: nlist.pyx read as a syntax tree -> '
+            'Generated/NlistSource.lean (superbox corners / expression / min-max tests / padding, arange stop, digitize offset, '
+            'shift ranges per periodic flag, ghost loop nest, image coordinate, strict superbox test, stencil loops, centre and '
+            'skip tests, pair-loop start, scans of the sorted insertion, default storage sizes of nlist and NeighborList.build) '
+            'with obligations gen_..._eq_model; call forms (sizes given / left out through the object API / left out in a direct '
+            'call) in model, driver and correspondence, nlistCall_complete end to end.',
     'note': 'Trusted: Lean kernel + propext/Classical.choice/Quot.sound; the correspondence harness; numpy '
             'arange/digitize/unique inside nlist.pyx; IEEE rounding of the distance test is exempt only inside the '
             'derived band u(16 S/c + 8) around the cutoff (about 1e-14..1e-12 relative) outside the dyadic-grid regimes '
             '(exact there). The sweep order of np.unique is not modelled (proved '
             'irrelevant). Periodic distance = the 27-candidate distance of C02; pairs nearer only through a second '
             'image in strongly sheared cells are counted, not claimed.',
-    'technique': 'Lean 4 theorems over a hand-written executable model + translator (growth blocks) + differential '
+    'technique': 'Lean 4 theorems over a hand-written executable model + translator (growth blocks, geometry, insertion scans, defaults) + differential '
                  'correspondence + exact oracle',
 }
